@@ -81,6 +81,7 @@ func runC10(c *Ctx) {
 	c10CloseDivisions(c, mClose)
 	c10PerSecondGuard(c, mClose)
 	c10SuccessRange(c)
+	c10EndDefinition(c)
 	c10Report(c)
 }
 
@@ -1862,4 +1863,44 @@ func c11SplitConversion(c *Ctx, cl *ssa.Function) {
 		return
 	}
 	c.Pass(key, rule, "remainder divided by the unit it was taken by", c.ats(sites)...)
+}
+
+// c10EndDefinition: Metrics.End, Wait and Throughput are defined from the end instant of each
+// result, Timestamp + Latency. Result.End is that sum on every path: a variant that clamps,
+// rounds or special-cases some latencies changes End/Wait/Throughput against their definitions
+// while Total, Min and Mean still use the raw latency.
+func c10EndDefinition(c *Ctx) {
+	const rule = "Result.End returns Timestamp.Add(Latency) of its receiver on every path (the end instant the metrics are defined from)"
+	key := "end-definition:(*lib.Result).End"
+	fn := c.P.Func("lib", "Result.End")
+	if fn == nil {
+		c.Undecided(key, rule, "lib.Result.End not found")
+		return
+	}
+	c.Saw("function " + shortFn(fn))
+	var rets, bad []ssa.Instruction
+	isRecvField := func(v ssa.Value, name string) bool {
+		ld, ok := isLoad(v)
+		if !ok {
+			return false
+		}
+		fa, ok := ld.X.(*ssa.FieldAddr)
+		return ok && fieldName(fa.X.Type(), fa.Field) == name && rootVal(fa.X) == ssa.Value(fn.Params[0])
+	}
+	eachInstr(fn, func(i ssa.Instruction) {
+		r, ok := i.(*ssa.Return)
+		if !ok {
+			return
+		}
+		rets = append(rets, r)
+		call, isCall := r.Results[0].(*ssa.Call)
+		if !isCall || callName(&call.Call) != "(time.Time).Add" || !isRecvField(call.Call.Args[0], "Timestamp") || !isRecvField(call.Call.Args[1], "Latency") {
+			bad = append(bad, r)
+		}
+	})
+	if len(bad) > 0 {
+		c.Fail(key, rule, "some path of End returns something other than Timestamp.Add(Latency): End, Wait and Throughput leave their definitions for those results", c.ats(bad)...)
+		return
+	}
+	c.Check(len(rets) > 0, key, rule, "Timestamp.Add(Latency)", "End has no return", c.ats(rets)...)
 }
